@@ -167,6 +167,8 @@ func c01(c *Ctx) {
 	c01SharedMaps(c, svcs, allReach)
 	c01DecoderLoops(c, allReach)
 	c01UnlockBalanced(c)
+	// a lock of the shared service object that a recovered panic leaves held stops the service for every later connection (shared with C09)
+	c09LockRelease(c)
 }
 
 func min(a, b int) int {
